@@ -17,7 +17,8 @@
 (* Rules (clauses named in `bad`):                                         *)
 (*   the store answers like a dictionary (has / fetch_paths);              *)
 (*   a blob is stored only inside an evaluation, only after a lookup of    *)
-(*   that key in this evaluation missed, at most once, never in a dry run; *)
+(*   that key in this evaluation missed, at most once (a no-op store       *)
+(*   forgets, so there every occurrence misses again), never in a dry run; *)
 (*   a blob is fetched only if present;                                    *)
 (*   paths are committed at most once per evaluation, only with keys whose *)
 (*   blobs exist, never when the commit stage is not requested;            *)
@@ -61,7 +62,7 @@ Store ==
   /\ bad' = IF ~ev.on THEN Append(bad, <<l, "store_blob outside an evaluation">>)
             ELSE IF ~ev.run THEN Append(bad, <<l, "store_blob in an evaluation without the eval stage">>)
             ELSE IF E.k \notin ev.missed THEN Append(bad, <<l, "store_blob of a key that was not looked up and missed">>)
-            ELSE IF E.k \in ev.stored THEN Append(bad, <<l, "store_blob twice in one evaluation">>)
+            ELSE IF E.k \in ev.stored /\ ~T.noop THEN Append(bad, <<l, "store_blob twice in one evaluation">>)
             ELSE bad
   /\ blobs' = blobs \cup {E.k}
   /\ ev' = IF ev.on THEN [ev EXCEPT !.stored = @ \cup {E.k}] ELSE ev
